@@ -11,6 +11,7 @@ pub mod lossy;
 pub mod pgp;
 pub mod copyright;
 pub mod wrap;
+pub mod codecs;
 
 #[derive(Serialize, Deserialize, Default, Debug, Clone)]
 pub struct Viol {
@@ -68,6 +69,7 @@ pub fn run_case(stage: &str, case: &Value, seed: u64) -> Outcome {
         "pgp" => pgp::run(case, seed),
         "copyright" => copyright::run(case, seed),
         "wrap" => wrap::run(case, seed),
+        "codecs" => codecs::run(case, seed),
         "rel_lossy_rt" => relsat::run_lossy_rt(case, seed),
         _ => panic!("unknown stage {}", stage),
     }
